@@ -123,7 +123,7 @@ var awkwardSources = []string{
 	`name=" \(x\)` + "\n", `\$_(?:GET|POST)` + "\n", `\$1x` + "\n" + `a${b}` + "\n", "trailing blank \n", `href=" \(` + "\n",
 	"foo\nbar\n", "ls\ncat\n", `a\$b` + "\n", `\"quoted\"` + "\n" + "x\n", `"@rx foo` + "\n", `a "@rx b` + "\n" + "c\n", "a b\n", `a\\b` + "\n", `\x5cd` + "\n",
 	`" \d` + "\n", `[\"']x` + "\n", `^\s*x$` + "\n", "##!+ i\nselect\nunion\n", "##!^ \\b\nfoo\nfob\n", `a" \` + "\n" + `b\n`, "x\\ \n", "uid:932100x\n", "SecRule\nSecAction\n",
-	"(?:lisa|maggie\n", "fine\n##!> assemble\n  open\n", "ok\n##!> frobnicate\n", `"!@rx x` + "\n", "##!> assemble\na\nb\n##!=>\nc\n##!<\n", `\.(?:ht|js)` + "\n", "é\n", `end" \\` + "\n",
+	"", "##! only a comment\n", "##!> define unused x\n\n", "(?:lisa|maggie\n", "fine\n##!> assemble\n  open\n", "ok\n##!> frobnicate\n", `"!@rx x` + "\n", "##!> assemble\na\nb\n##!=>\nc\n##!<\n", `\.(?:ht|js)` + "\n", "é\n", `end" \\` + "\n",
 }
 
 func rulesGen(r *rand.Rand, lane string) *rulesCase {
@@ -194,6 +194,18 @@ func rulesGen(r *rand.Rand, lane string) *rulesCase {
 			rs.Before = keep
 		}
 		c.Rules = append(c.Rules, rs)
+	}
+	if core.Chance(r, 1, 5) && len(c.Rules) > 0 {
+		// a directive that is not a SecRule carries an id of its own (between two rules): addressing it must fail,
+		// and must not rewrite the rule in front of it
+		k := r.Intn(len(c.Rules))
+		c.Rules[k].Before = append(c.Rules[k].Before, "SecAction \\", "    \"id:932199,\\", "    phase:1,\\", "    pass,\\", "    nolog\"", "")
+		c.Sources["932199"] = "actionword\n"
+		invalid = append(invalid, [2]interface{}{"932199", 0})
+		if core.Chance(r, 1, 2) {
+			c.Sources["932199-chain1"] = "actionchain\n"
+			invalid = append(invalid, [2]interface{}{"932199", 1})
+		}
 	}
 	if lane == "hostile" && core.Chance(r, 1, 4) {
 		// a rule with a longer id that starts with the same digits, placed first
@@ -488,11 +500,22 @@ func c12Check(env *core.Env, cc core.Case) core.Verdict {
 		return core.Viol("second-update-changes", "a second update is not a no-op (exit %d)\n%s", u2.Exit, firstDiff(file2, file1))
 	}
 	// edit one byte of the stored operand -> compare must report it
-	if len(regex) > 0 {
+	{
 		rng := rand.New(rand.NewSource(int64(len(file1))*31 + int64(len(regex))))
 		var mutated string
-		i := rng.Intn(len(regex))
-		switch rng.Intn(3) {
+		i := 0
+		if len(regex) > 0 {
+			i = rng.Intn(len(regex))
+		}
+		kind := rng.Intn(5)
+		if len(regex) == 0 {
+			kind = 3 // nothing to flip or delete in an empty expression
+		}
+		switch kind {
+		case 3: // one byte appended: the stored operand merely extends the generated regex
+			mutated = regex + "q"
+		case 4: // the last byte deleted: the stored operand is a proper prefix of the generated regex
+			mutated = regex[:len(regex)-1]
 		case 0: // flip
 			b := []byte(regex)
 			if b[i] == 'z' {
